@@ -19,6 +19,8 @@ type ReflVal struct {
 	slot   *Slot // addressable storage (settable); nil for plain values
 	val    Value // value when not addressable
 	canSet bool
+	ro     bool // reached through an unexported non-embedded struct field (sticky: Interface / Set panic, as in package reflect)
+	ero    bool // is an unexported embedded field itself (not inherited by its fields)
 }
 
 type ReflType struct{ typ types.Type }
@@ -205,6 +207,9 @@ func init() {
 	})
 	reg("Interface", func(e *Engine, f *frame, a []Value) Value {
 		r := e.reflMust(a[0], "Interface")
+		if r.ro || r.ero {
+			e.x.goPanic(nil, nil, "reflect.Value.Interface: cannot return value obtained from unexported field or method")
+		}
 		v := e.reflGet(r)
 		if i, ok := v.(*Iface); ok {
 			return i
@@ -340,6 +345,9 @@ func (e *Engine) zeroReflValue() Value {
 
 // reflTypeMethod dispatches a method call on a modelled reflect.Type.
 func (e *Engine) reflTypeMethod(rt *ReflType, name string, args []Value) Value {
+	if v, ok := e.reflTypeMethod2(rt, name, args); ok {
+		return v
+	}
 	switch name {
 	case "Kind":
 		return e.b.BVu(reflKind(rt.typ), 64)
